@@ -90,7 +90,8 @@ def gen(seed: int, tier: str) -> dict[str, Any]:
         clean.append(o)
     ops = clean
     return {"seed": seed, "tier": "S", "config": {"batch": 1, "initial": rng.choice(["CONNECTED", "DISCONNECTED"]),
-                                                   "initial_started": [rng.random() < 0.7 for _ in range(nt)]},
+                                                   "initial_started": [rng.random() < 0.7 for _ in range(nt)],
+                                                   "shadow": rng.random() < 0.25},
             "tasks": tasks, "ops": ops}
 
 
@@ -320,6 +321,20 @@ def run(plan: dict[str, Any]) -> dict[str, Any]:
             elif k == "conn":
                 cm.connection_state_changed(XknxConnectionState[op["state"]])
 
+        reg2 = None
+        if plan["config"].get("shadow"):
+            # a second XKNX object of the same process with tasks of its own: its connection is lost and comes back at other
+            # times, its registry is stopped in the middle of the run
+            xknx2 = XKNX()
+            reg2, cm2 = xknx2.task_registry, xknx2.connection_manager
+            cm2.connection_state_changed(XknxConnectionState.CONNECTED)
+            reg2.start()
+
+            async def other():
+                await asyncio.sleep(3600.0)
+            for j in range(2):
+                reg2.start_task(Task(f"t{j}", other, restart_after_reconnect=True, wait_for_connection=bool(j), repeat_after=1.0))
+            R.extra_faults["second_xknx_object_with_its_own_connection_changes"] += 1
         for i in range(len(objs)):
             if plan["config"]["initial_started"][i]:
                 do({"op": "start_task", "i": i})
@@ -329,7 +344,16 @@ def run(plan: dict[str, Any]) -> dict[str, Any]:
             tl = max(tl, op["t"])
         horizon = tl + 25.0
         info["horizon"] = horizon
+        if reg2 is not None:
+            srng = random.Random(plan["seed"] ^ 0x5AD0)
+            for k_ in range(4):
+                tt_ = t0 + srng.uniform(0.0, tl + 5.0)
+                st_ = [XknxConnectionState.DISCONNECTED, XknxConnectionState.CONNECTING, XknxConnectionState.CONNECTED][k_ % 3]
+                loop.at(tt_, (lambda st=st_: cm2.connection_state_changed(st)), label="op2")
+            loop.at(t0 + srng.uniform(0.0, tl + 5.0), reg2.stop, label="op2")
         await asyncio.sleep(horizon + 1e-4)
+        if reg2 is not None:
+            reg2.stop()
         reg.stop()
         info["stop_t"] = loop.time()
         await asyncio.sleep(30.0)
